@@ -52,6 +52,19 @@ OBJ7 = [(0, "hit"), (5, "hit"), (1, "hit"), (6, "hit"), (4, "hold")]
 GROUPS_7 = [g for n in (1, 2) for g in itertools.combinations(range(len(OBJ7)), n)]
 
 
+def large_seq(n):
+    """n groups, cycling through the group alphabet of part B with a stride that visits every group"""
+    return [(i * 7 + 3) % len(GROUPS_B) for i in range(n)]
+
+
+def large_notes(n):
+    """n notes over 4 columns, 50 ms apart with a chord every 5th and a hold every 7th (ties and repeated columns included)"""
+    out = []
+    for i in range(n):
+        out.append(((i * 3) % 4, 50 * (i - (i % 5 == 4)), 100 if i % 7 == 3 else None))
+    return out
+
+
 def bound(tier, seed):
     return dict(
         A=dict(max_notes=3 if tier == "quick" else 4, columns=list(COLS), times=list(TIMES), kinds=["hit", "hold 100"], v=list(VS), h=[str(h) for h in HS], avoid_jack=[True, False], include_tails=[True, False]),
@@ -84,6 +97,9 @@ def roots(tier, seed):
     rs += [dict(part="A", start=s, stop=min(na, s + CH_A)) for s in range(0, na, CH_A)]
     rs += [dict(part="B", start=s, stop=min(nb, s + CH_B)) for s in range(0, nb, CH_B)]
     rs += [dict(part="B7", first=g) for g in range(len(GROUPS_7))]
+    # size: sequences of hundreds / thousands of groups, note sets of hundreds of notes
+    rs += [dict(part="BL", n=n) for n in ((40, 1100) if tier == "quick" else (17, 40, 1100, 3000))]
+    rs += [dict(part="AL", n=n) for n in ((300,) if tier == "quick" else (40, 300, 1500))]
     return rs
 
 
@@ -97,6 +113,15 @@ def explore(root, tier, ctx):
         return
     if root["part"] == "B7":
         check_combos7(root["first"], ctx)
+        return
+    if root["part"] == "BL":
+        check_combos(large_seq(root["n"]), tier, ctx)
+        return
+    if root["part"] == "AL":
+        notes = large_notes(root["n"])
+        pat = make_pattern(notes, True, ctx)
+        for v, h, aj in ((0, None, False), (50, 1, True), (100, None, True), (1000, 2, False)):
+            check_group(notes, True, v, h, aj, ctx, pat)
         return
     if root["part"] == "A":
         key = ("A", tier)
